@@ -102,14 +102,23 @@ def validate_sig(sig):
         raise HarnessError("malformed signature")
 
 
+def _alias_kw(p):
+    out = ""
+    if p.get("alias"):
+        out += f", alias={p['alias']!r}"
+    if p.get("alias_from"):
+        out += f", alias_from={p['alias_from']!r}"
+    if p.get("ci"):
+        out += ", case_insensitive=True"
+    return out
+
+
 def default_src(p):
     d = p.get("default")
     if not d:
         return ""
     v = repr(codec.decode(d["v"])) if "v" in d else None
-    alias = ""
-    if p.get("alias_from"):
-        alias = f", alias_from={p['alias_from']!r}" + (", case_insensitive=True" if p.get("ci") else "")
+    alias = _alias_kw(p)
     if d["form"] == "plain":
         return f" = {v}"
     if d["form"] == "param":
@@ -131,8 +140,8 @@ def render(sig, sfx):
             params.append(f"**{p['name']}{ann}")
         else:
             d = default_src(p)
-            if not d and p.get("alias_from"):
-                d = f" = Param(alias_from={p['alias_from']!r}" + (", case_insensitive=True" if p.get("ci") else "") + ")"
+            if not d and (p.get("alias_from") or p.get("alias") or p.get("ci")):
+                d = " = Param(" + _alias_kw(p).lstrip(", ") + ")"
             if p["kind"] == "kwonly" and "varargs" not in kinds and (i == 0 or sig["params"][i - 1]["kind"] != "kwonly"):
                 params.append("*")
             params.append(f"{p['name']}{ann}{d}")
@@ -164,6 +173,19 @@ def render(sig, sfx):
     return "class K:\n" + deco + "\n".join("    " + line for line in fn) + "\n"
 
 
+def _deco_args(sig):
+    parts = []
+    if sig.get("eager"):
+        parts.append("eager=True")
+    o = sig.get("options") or {}
+    for k in o:
+        if k not in ("data_first_search", "case_insensitive"):
+            raise HarnessError("bad function option")
+    if o:
+        parts.append("options=utype.Options(" + ", ".join(f"{k}={v!r}" for k, v in sorted(o.items())) + ")")
+    return ", ".join(parts)
+
+
 def build(sig, decorated):
     import utype
     _n[0] += 1
@@ -179,7 +201,7 @@ def build(sig, decorated):
             src = src.replace("def f(", "def f(", 1)
             lines = src.split("\n")
             i = next(j for j, l in enumerate(lines) if l.lstrip().startswith(("def f(", "async def f(")))
-            lines.insert(i, f"@utype.parse({'eager=True' if eager else ''})")
+            lines.insert(i, f"@utype.parse({_deco_args(sig)})")
             src = "\n".join(lines)
         elif sig.get("class_deco"):
             src = "@utype.parse\n" + src
@@ -191,10 +213,10 @@ def build(sig, decorated):
             if ctx == "staticmethod" and (looks_like_self or sig.get("parse_outside")):
                 # below @staticmethod the parser can only guess, and guesses 'instance method' for an unannotated first parameter
                 # without default: the decorator goes outside there (documented as equivalent)
-                lines.insert(i - 1, f"    @utype.parse({'eager=True' if eager else ''})")
+                lines.insert(i - 1, f"    @utype.parse({_deco_args(sig)})")
             else:
                 # the parse decorator goes innermost (below classmethod / staticmethod)
-                lines.insert(i, f"    @utype.parse({'eager=True' if eager else ''})")
+                lines.insert(i, f"    @utype.parse({_deco_args(sig)})")
             src = "\n".join(lines)
     exec(compile(src, name, "exec"), mod.__dict__)
     if ctx == "function":
@@ -336,7 +358,9 @@ def run_case(case):
                         args.append(v)
                     else:
                         positional_open = False if k == "pos" else positional_open
-                        if how == "alias" and p.get("alias_from"):
+                        if how == "alias" and p.get("alias"):
+                            kw[p["alias"]] = v
+                        elif how == "alias" and p.get("alias_from"):
                             kw[p["alias_from"][0]] = v
                         elif how == "case" and p.get("ci"):
                             kw[n.upper()] = v
@@ -354,7 +378,7 @@ def run_case(case):
         try:
             canon_kw = {}
             for key, v in kw.items():
-                target = next((p["name"] for p in sig["params"] if p.get("alias_from") and key in p["alias_from"]), None) or \
+                target = next((p["name"] for p in sig["params"] if (p.get("alias_from") and key in p["alias_from"]) or key == p.get("alias")), None) or \
                     next((p["name"] for p in sig["params"] if p.get("ci") and key.lower() == p["name"].lower() and p["kind"] not in ("varargs", "varkw")), key)
                 canon_kw[target] = v
             try:
@@ -499,7 +523,10 @@ def cases(draw):
                 good = [v for v in VALS[ann][:2]]
                 p["default"] = {"form": draw(st.sampled_from(["plain", "param", "factory"])), "v": draw(st.sampled_from(good))}
             if kind == "pos" and draw(st.sampled_from([False, False, True])):
-                p["alias_from"] = [p["name"].upper() + "_alt"]
+                if draw(st.booleans()):
+                    p["alias_from"] = [p["name"].upper() + "_alt"]
+                else:
+                    p["alias"] = p["name"] + "Alias"
                 p["ci"] = draw(st.booleans())
                 if p.get("default", {}).get("form") == "plain":
                     p["default"]["form"] = "param"
@@ -522,6 +549,8 @@ def cases(draw):
     wrapper = draw(st.sampled_from(["sync", "sync", "sync", "coro", "gen", "asyncgen"]))
     sig = {"params": params, "wrapper": wrapper, "context": draw(st.sampled_from(["function", "function", "method", "classmethod", "staticmethod"])),
            "ret": draw(st.sampled_from([None, "int", "pos", "str", "list", "data"]))}
+    if draw(st.sampled_from([False, False, True])):
+        sig["options"] = {"data_first_search": True}
     if wrapper in ("gen", "asyncgen"):
         sig["yield_t"] = draw(st.sampled_from(["none", "int", "str", "pos"]))
         sig["send_t"] = draw(st.sampled_from(["none", "int", "str"]))
@@ -564,7 +593,8 @@ def cases(draw):
     case["ret_raw"] = draw(st.sampled_from(rpool[sig["ret"]]))
     if wrapper in ("gen", "asyncgen"):
         ypool = {"none": [1, "a"], "int": [1, "2", {"t": "float", "v": "3.0"}], "str": ["a", 5], "pos": [1, "2"]}[sig["yield_t"]]
-        spool = {"none": [1, "a"], "int": [5, "6"], "str": ["s", 7]}[sig["send_t"]]
+        spool = {"none": [1, "a", 0], "int": [5, "6", {"t": "float", "v": "0.0"}, False, {"t": "float", "v": "2.0"}],
+                 "str": ["s", 7, 0, {"t": "bytes", "v": ""}, {"t": "bytes", "v": "62"}]}[sig["send_t"]]
         case["yields"] = draw(st.lists(st.sampled_from(ypool), min_size=1, max_size=4))
         script = [["next"]]
         for _ in range(draw(st.integers(0, 4))):
